@@ -463,6 +463,19 @@ def _episode(run, env, cfg, rows, plan):
     refs = [R.make_ref(name, row, cfg) for row in rows]
     if name in JOBSHOP:
         bad = [w for r in refs for w in r.wellformed()]
+        if bad and plan.get("source") == "file":
+            # the instance was WRITTEN well-formed and came back from rl4co's reader with a padding mask that
+            # does not match its job ranges: judge the episode against what the file holds (padding = every
+            # operation slot after the last job's last operation), the environment runs on what was read
+            fixed = []
+            for row in rows:
+                r2 = {k: v.clone() for k, v in row.items()}
+                last = int(r2["end_op_per_job"].max())
+                r2["pad_mask"] = torch.arange(r2["pad_mask"].shape[-1]) > last
+                fixed.append(r2)
+            refs = [R.make_ref(name, r2, cfg) for r2 in fixed]
+            bad = [w for r in refs for w in r.wellformed()]
+            run.probe("file_instance_pad_mask_repaired_for_reference")
         if bad:
             run.probe("malformed_instance")  # C18's business (documented-format rule)
             run.log.add("malformed", bad[:2])
